@@ -17,3 +17,7 @@ Definition hel_norm2 (j2 : Z) (X : Z -> C) : R := zsum (m_range j2) (fun m => Cn
 (* real matrix acting on a complex vector *)
 Definition M_apply (L : list Z) (M : Z -> Z -> R) (Y : Z -> C) (lam : Z) : C :=
   czsum L (fun mu => Cscal (M lam mu) (Y mu)).
+
+(* alignment acts on the final-state helicity as a row vector times Dconj: (X Dc)_f = sum_l X_l Dc_{l f} *)
+Definition D_apply_right (j2 : Z) (alpha beta gamma : R) (X : Z -> C) (f : Z) : C :=
+  czsum (m_range j2) (fun l => Cmul (X l) (Dconj j2 l f alpha beta gamma)).
